@@ -553,6 +553,97 @@ def position_tables(ctx):
     r.must_fire(bool(_pos_table_hits(posex)[0]), "t = zeros(len(els)); t[element]")
 
 
+# ---------------------------------------------------------------- the two representations of a grid function
+
+
+def representations(ctx):
+    """coefficients <-> projections of a GridFunction: c = M(space, dual)^-1 p,  p' = M(space, dual') c, and the
+    derived objects (grid coefficients, real / imaginary part, projection into another space)."""
+    from . import dispatch
+
+    m = ctx.repo.mod(GF)
+    r = ctx.rule("GF-REPRESENTATIONS", "GridFunction: coefficients = inverse mass matrix(space, dual_space) @ projections (computed once); projections(d) = the stored vector for the own dual space, otherwise mass matrix(space, d) * coefficients; "
+                 "grid coefficients = dof_transformation @ coefficients; real / imag keep space and dual space; project_to_space(s) = projections onto s as dual", 6)
+    ns = lambda t: (t or "").replace(" ", "")
+
+    def stmts(name):
+        fn = m.fn("GridFunction." + name)
+        return fn, [s for s in fn.body if not isinstance(s, (ast.Import, ast.ImportFrom)) and not (isinstance(s, ast.Expr) and isinstance(s.value, ast.Constant))]
+
+    # coefficients (memo)
+    fn, body = stmts("coefficients")
+    got = {}
+    for have in (None, "‹c›"):
+        effs = dispatch.effects(body, {"self._coefficients": have}, "GridFunction.coefficients")
+        got[have] = ([ns(e[2]) for e in effs if e[0] == "store" and ns(e[1]) == "self._coefficients"], [ns(e[1]) for e in effs if e[0] == "return"])
+    d = roles.Defs(fn)
+    init = [roles.canon(s.value, d, commutative_mult=False).replace(" ", "") for s in ast.walk(fn) if isinstance(s, ast.Assign) and ns(unparse(s.targets[0])) == "self._coefficients"]
+    want = {"(get_inverse_mass_matrix(self.space,self.dual_space)@self._projections)", "(get_inverse_mass_matrix(self.space,self.dual_space)*self._projections)",
+            "(get_inverse_mass_matrix(self._space,self._dual_space)@self._projections)"}
+    ok = len(got[None][0]) == 1 and got[None][1] == ["self._coefficients"] and not got["‹c›"][0] and got["‹c›"][1] == ["self._coefficients"] and len(init) == 1 and init[0] in want
+    r.check(ok, "coefficients", GF, "GridFunction.coefficients", fn.lineno, "coefficients from projections",
+            "coefficients are computed as %s (stores when absent: %s, when present: %s); expected inverse mass matrix of (space, dual_space) applied to the stored projections, once" % (init, got[None][0], got["‹c›"][0]))
+    # grid coefficients
+    fn, body = stmts("grid_coefficients")
+    d = roles.Defs(fn)
+    init = [roles.canon(s.value, d, commutative_mult=False).replace(" ", "") for s in ast.walk(fn) if isinstance(s, ast.Assign) and ns(unparse(s.targets[0])) == "self._grid_coefficients"]
+    r.check(init in (["(self.space.dof_transformation@self.coefficients)"], ["(self.space.dof_transformation*self.coefficients)"], ["(self._space.dof_transformation@self.coefficients)"]), "grid_coefficients", GF, "GridFunction.grid_coefficients",
+            fn.lineno, "grid coefficients", "grid coefficients are %s, expected space.dof_transformation @ coefficients" % init)
+    # projections(dual_space)
+    fn, body = stmts("projections")
+    D = arg_names(fn)[1]
+    res = {}
+    for name, env in (("own dual space, projections stored", {D: "‹own›", "self.dual_space": "‹own›", "self._dual_space": "‹own›", "self._projections": "‹p›"}),
+                      ("None, projections stored", {D: None, "self.dual_space": "‹own›", "self._dual_space": "‹own›", "self._projections": "‹p›"}),
+                      ("own dual space, only coefficients", {D: "‹own›", "self.dual_space": "‹own›", "self._dual_space": "‹own›", "self._projections": None}),
+                      ("another dual space", {D: "‹other›", "self.dual_space": "‹own›", "self._dual_space": "‹own›", "self._projections": "‹p›"})):
+        effs = dispatch.effects(body, env, "GridFunction.projections")
+        sets = {e[1]: e[2] for e in effs if e[0] == "set"}
+        ret = [e[1] for e in effs if e[0] == "return"]
+        res[name] = (ns(ret[0]) if len(ret) == 1 else None, {k: (ns(v) if isinstance(v, str) else v) for k, v in sets.items()})
+    cached = lambda x: x[0] == "self._projections"
+    def computed(x, dual):
+        ret, sets = x
+        ident = [k for k, v in sets.items() if isinstance(v, str) and v in ("get_mass_matrix(self.space,%s)" % D, "get_mass_matrix(self._space,%s)" % D)]
+        direct = ret in ("get_mass_matrix(self.space,%s)*self.coefficients" % D, "get_mass_matrix(self.space,%s)@self.coefficients" % D)
+        return direct or (len(ident) == 1 and ret in ("%s*self.coefficients" % ident[0], "%s@self.coefficients" % ident[0]))
+    ok = cached(res["own dual space, projections stored"]) and cached(res["None, projections stored"]) and computed(res["own dual space, only coefficients"], "own") and computed(res["another dual space"], "other") \
+        and res["None, projections stored"][1].get(D) == "‹own›"
+    r.check(ok, "projections", GF, "GridFunction.projections", fn.lineno, "projections onto a dual space",
+            "projections(d) returns %s; expected the stored vector exactly when d is (or defaults to) the function's own dual space and projections are stored, otherwise mass matrix(space, d) times the coefficients" % {k: v[0] for k, v in res.items()})
+    # real / imag
+    for part in ("real", "imag"):
+        fn, body = stmts(part)
+        bad = []
+        for rep, kw, val in (("primal", "coefficients", "self.coefficients"), ("dual", "projections", "self.projections()")):
+            kind, node = dispatch.select(fn, {"self.representation": rep, "self._representation": rep})
+            call = node if kind == "return" and isinstance(node, ast.Call) and unparse(node.func).split(".")[-1] == "GridFunction" else None
+            if call is None:
+                bad.append("%s representation: no GridFunction returned" % rep)
+                continue
+            kws = {k.arg: ns(unparse(k.value)) for k in call.keywords}
+            if call.args:
+                kws["space"] = ns(unparse(call.args[0]))
+            npart = [kws.get(kw, "").replace("_np.", "np.")]
+            if kws.get("space") not in ("self.space", "self._space") or (rep == "dual" and kws.get("dual_space") not in ("self.dual_space", "self._dual_space")) or npart != ["np.%s(%s)" % (part, val)] \
+                    or ({"coefficients", "projections"} & set(kws)) != {kw}:
+                bad.append("%s representation builds GridFunction(%s)" % (rep, kws))
+        r.check(not bad, part, GF, "GridFunction." + part, fn.lineno, part + " part", "; ".join(bad) + "; expected the %s part of the stored representation in the same space (and dual space)" % part)
+    # project_to_space
+    fn, body = stmts("project_to_space")
+    S_ = arg_names(fn)[1]
+    d = roles.Defs(fn)
+    rets = [s.value for s in ast.walk(fn) if isinstance(s, ast.Return) and s.value is not None]
+    ok, gotp = False, None
+    if len(rets) == 1 and isinstance(rets[0], ast.Call) and unparse(rets[0].func).split(".")[-1] == "GridFunction" and rets[0].args:
+        kws = {k.arg: roles.canon(k.value, d, commutative_mult=False).replace(" ", "") for k in rets[0].keywords}
+        gotp = (unparse(rets[0].args[0]), kws)
+        ok = unparse(rets[0].args[0]) == S_ and kws.get("projections") in ("(get_mass_matrix(self.space,%s)@self.coefficients)" % S_, "(get_mass_matrix(self.space,%s)*self.coefficients)" % S_) and set(kws) <= {"projections", "dual_space"} \
+            and kws.get("dual_space", S_) == S_
+    r.check(ok, "project_to_space", GF, "GridFunction.project_to_space", fn.lineno, "projection into another space",
+            "project_to_space(s) builds GridFunction%s; expected GridFunction(s, projections = mass matrix(space, s) @ coefficients) (dual space s)" % (gotp,))
+
+
 # ---------------------------------------------------------------- l2_norm
 
 
